@@ -397,3 +397,76 @@ Theorem C14_table_clear_moved_from :
   forall w, cc_clear KTable MovedFrom w = Ok MovedFrom w /\ cc_clear_table_old MovedFrom w = NullCrew.
 Proof. exact table_clear_moved_from. Qed.
 Print Assumptions C14_table_clear_moved_from.
+
+(* ---- (9) round 3: element-wise structure, merges into non-empty sets, DataTable indexes -------------------------------- *)
+(* The target of an element-wise move (unequal non-propagating allocators) is a FRESH structure built by inserting the
+   source's items in traversal order: same items, every block allocated by this operation through the TARGET's manager,
+   at most one bucket array, no value-less key, and for a tree exactly the given fresh shape (which the tie takes from
+   an independently built real tree: ascending insertion of the same items). *)
+Theorem C14_elementwise_target_structure :
+  forall m cid sh b w b' w',
+    (forall p nodes, b = STree p nodes -> shape_total sh = length (flat_map nitems nodes)) ->
+    s_elementwise_body m cid sh b w = (b', w') ->
+    sb_items b' = sb_items b /\
+    fresh_for m (next w) (next w') (sb_blocks b') /\
+    (length (gen_counts b') <= 1)%nat /\
+    valueless b' = O /\
+    (forall p nodes, b = STree p nodes -> sb_items b <> [] -> tree_shape b' = sh) /\
+    (forall pb cref ns, b' = STree (Some (pb, cref)) ns -> cref = cid).
+Proof. exact s_elementwise_spec. Qed.
+Print Assumptions C14_elementwise_target_structure.
+
+(* TreeSet::MergeTo into a non-empty set with an EQUAL manager (fast path: trees joined, NodeParams::MergeFrom relinks the
+   source's pool buffers into the target's pools -- the list surgery itself is property C09): afterwards every buffer
+   belongs to exactly one NodeParams, the target's; every node of the joined tree lives in a buffer the target owns and
+   can be returned through the target's manager; the source owns no buffer and no node, so it may be destroyed before or
+   after the target. *)
+Theorem C14_merge_fast_pool_ownership :
+  forall dst src,
+    cmgr (m_crew src) = cmgr (m_crew dst) ->
+    wf_blocks (cmgr (m_crew dst)) (m_bufs dst) -> wf_blocks (cmgr (m_crew src)) (m_bufs src) ->
+    nodes_in_own_bufs dst = true -> nodes_in_own_bufs src = true ->
+    NoDup (map fst (m_bufs dst ++ m_bufs src)) ->
+    let (dst', src') := merge_fast dst src in
+    nodes_in_own_bufs dst' = true /\
+    m_bufs src' = [] /\ m_nodes src' = [] /\
+    m_bufs dst' ++ m_bufs src' = m_bufs dst ++ m_bufs src /\
+    NoDup (map fst (m_bufs dst')) /\
+    wf_blocks (cmgr (m_crew dst')) (m_bufs dst') /\
+    m_items dst' = m_items dst ++ m_items src /\
+    m_crew dst' = m_crew dst /\ m_crew src' = m_crew src.
+Proof. exact merge_fast_ownership. Qed.
+Print Assumptions C14_merge_fast_pool_ownership.
+
+(* why the code tests IsEqual before taking the fast path *)
+Theorem C14_merge_fast_needs_equal_managers :
+  forall dst src b,
+    cmgr (m_crew src) <> cmgr (m_crew dst) -> In b (m_bufs src) -> snd b = cmgr (m_crew src) ->
+    ~ wf_blocks (cmgr (m_crew dst)) (m_bufs (fst (merge_fast dst src))).
+Proof. exact merge_fast_needs_equal_managers. Qed.
+Print Assumptions C14_merge_fast_needs_equal_managers.
+
+(* MergeTo with UNEQUAL managers (element-wise): the target allocates through its own manager, the source keeps its
+   buffers for its own manager, items are moved and never copied *)
+Theorem C14_merge_elementwise_ownership :
+  forall dst src w,
+    nodes_in_own_bufs dst = true ->
+    wf_blocks (cmgr (m_crew dst)) (m_bufs dst) ->
+    let '(dst', src', w') := merge_elementwise dst src w in
+    nodes_in_own_bufs dst' = true /\ wf_blocks (cmgr (m_crew dst')) (m_bufs dst') /\
+    m_bufs src' = m_bufs src /\ m_items src' = [] /\ m_items dst' = m_items dst ++ m_items src /\
+    (forall P, move_class P -> extends P w w').
+Proof. exact merge_elementwise_ownership. Qed.
+Print Assumptions C14_merge_elementwise_ownership.
+
+(* DataTable with indexes: a copy re-creates every index with the same kind (unique / multi), one entry per copied row,
+   storage fresh through the copy's manager (nothing of the source's index storage is shared) *)
+Theorem C14_table_copy_rebuilds_indexes :
+  forall m cid t w t' w',
+    s_copy_table m cid t w = (t', w') ->
+    sb_items (t_body t') = sb_items (t_body t) /\
+    map fst (idx_shape t') = map fst (idx_shape t) /\
+    Forall (fun p => snd p = table_rows (t_body t)) (idx_shape t') /\
+    fresh_for m (next w) (next w') (sb_blocks (t_body t') ++ idx_blocks t').
+Proof. exact s_copy_table_spec. Qed.
+Print Assumptions C14_table_copy_rebuilds_indexes.
